@@ -23,6 +23,7 @@ import (
 	"strconv"
 	"strings"
 	"sync"
+	"sync/atomic"
 	"time"
 
 	"github.com/ipfs/ipfs-cluster/api"
@@ -50,7 +51,7 @@ type tcase struct {
 	wire    int
 }
 
-var allBeh = []string{"ok", "e", "np", "npx", "ap", "jnull", "nj", "empty", "nj4", "jarr",
+var allBeh = []string{"ok", "oka", "e", "np", "npx", "ap", "jnull", "nj", "empty", "nj4", "jarr",
 	"d0", "dcl", "dch", "dchp", "st", "ps", "pss", "slow", "serr", "b200"}
 
 func isBeh(s string) bool {
@@ -287,7 +288,15 @@ func (d *daemon) ServeHTTP(w http.ResponseWriter, r *http.Request) {
 		if len(args) != 1 || q.Get("stream") != "" {
 			item = "other:" + item
 		}
-		if c0 >= 0 && want != 0 && d.table[c0] == want {
+		if beh == "oka" && k == 0 && c0 >= 0 {
+			// truthful listing that does not honour the type filter
+			ty := map[byte]string{'r': "recursive", 'd': "direct", 'i': "indirect through " + common.CidN(len(d.table)+6).String()}[d.table[c0]]
+			if ty == "" {
+				eff = effect{refuse: fmt.Sprintf("path '%s' is not pinned", arg(0))}
+			} else {
+				eff = effect{apply: func() {}, body: fmt.Sprintf(`{"Keys":{%s:{"Type":%s}}}`, strconv.Quote(arg(0)), strconv.Quote(ty))}
+			}
+		} else if c0 >= 0 && want != 0 && d.table[c0] == want {
 			key := arg(0)
 			body := fmt.Sprintf(`{"Keys":{%s:{"Type":%s}}}`, strconv.Quote(key), strconv.Quote(t))
 			switch d.wire % 7 {
@@ -383,6 +392,9 @@ func (d *daemon) ServeHTTP(w http.ResponseWriter, r *http.Request) {
 	}
 	item += meth
 	d.trace = append(d.trace, item)
+	if beh == "oka" {
+		beh = "ok"
+	}
 	// stream behaviours exist on pin/add only
 	if !isAdd {
 		switch beh {
@@ -592,15 +604,69 @@ type result struct {
 	anomaly bool
 }
 
+// heartbeat: a goroutine that sleeps 5 ms at a time and notes when it woke up much too late. A
+// time-dependent run during which that happened says nothing about the connector (the process was
+// starved of CPU) and is discarded.
+type lateEv struct {
+	at time.Time
+	by time.Duration
+}
+
+var (
+	lateMu sync.Mutex
+	lateAt []lateEv
+)
+
+func heartbeat() {
+	for {
+		t0 := time.Now()
+		time.Sleep(5 * time.Millisecond)
+		if by := time.Since(t0) - 5*time.Millisecond; by > 10*time.Millisecond {
+			lateMu.Lock()
+			lateAt = append(lateAt, lateEv{time.Now(), by})
+			if len(lateAt) > 8192 {
+				lateAt = append([]lateEv(nil), lateAt[4096:]...)
+			}
+			lateMu.Unlock()
+		}
+	}
+}
+
+// starvedSince: did the heartbeat wake up more than `by` late at any time after t?
+func starvedSince(t time.Time, by time.Duration) bool {
+	lateMu.Lock()
+	defer lateMu.Unlock()
+	for i := len(lateAt) - 1; i >= 0 && lateAt[i].at.After(t); i-- {
+		if lateAt[i].by > by {
+			return true
+		}
+	}
+	return false
+}
+
 func runOnce(c tcase) (res result) {
 	timing := c.timing()
+	started := time.Now()
 	pinTimeout := 30 * time.Second
+	defer func() {
+		if timing && starvedSince(started, pinTimeout/4) {
+			res.anomaly = true
+		}
+	}()
 	reqTimeout := 20 * time.Second
 	parent := 25 * time.Second
 	if timing {
 		pinTimeout = 60 * time.Millisecond
 		reqTimeout = 400 * time.Millisecond
 		parent = 1500 * time.Millisecond
+		for _, b := range c.script {
+			if b == "slow" {
+				// a stream that must NOT be timed out: leave room for scheduling noise
+				pinTimeout = 240 * time.Millisecond
+				reqTimeout = 800 * time.Millisecond
+				parent = 3 * time.Second
+			}
+		}
 	}
 	d := &daemon{table: append([]byte(nil), c.table...), script: c.script, sw: c.sw, wire: c.wire,
 		pinTimeout: pinTimeout, done: make(chan struct{})}
@@ -737,6 +803,8 @@ func runOnce(c tcase) (res result) {
 	return result{out: fmt.Sprintf("%s %s %s %s", cls, trace, common.Ints(sw), strings.Join(tab, ",")), anomaly: d.anomaly}
 }
 
+var timingRuns, discardedRuns int64
+
 // run executes a case; time-dependent cases are repeated until two runs agree.
 func run(c tcase) string {
 	if !c.timing() {
@@ -747,9 +815,11 @@ func run(c tcase) string {
 		return c.input() + " => " + r.out
 	}
 	seen := map[string]int{}
-	for try := 0; try < 5; try++ {
+	for try := 0; try < 8; try++ {
 		r := runOnce(c)
+		atomic.AddInt64(&timingRuns, 1)
 		if r.anomaly || strings.HasPrefix(r.out, "#") {
+			atomic.AddInt64(&discardedRuns, 1)
 			continue
 		}
 		// swarm requests received are legitimately variable: compare without them
@@ -934,6 +1004,9 @@ func gen(r *common.Rng, k, total int) tcase {
 	if c.op == "pin" && c.src >= 0 && r.Chance(1, 2) {
 		c.script[1] = "ok"
 	}
+	if c.op != "unpin" && r.Chance(1, 12) {
+		c.script[0] = "oka"
+	}
 	c.sw = "ok"
 	if c.norig > 0 && r.Chance(1, 3) {
 		c.sw = pick(r, []string{"e", "nj", "d0", "st", "dch"})
@@ -974,6 +1047,7 @@ func main() {
 			cases = append(cases, gen(root.Fork(uint64(k)), k, total))
 		}
 	}
+	go heartbeat()
 	// cases are independent (own daemon, own connector): a small worker pool, output in case order
 	outs := make([]string, len(cases))
 	workers := 6
@@ -996,6 +1070,7 @@ func main() {
 	}
 	close(next)
 	wg.Wait()
+	fmt.Fprintf(os.Stderr, "timing runs %d, discarded as starved %d\n", atomic.LoadInt64(&timingRuns), atomic.LoadInt64(&discardedRuns))
 	out := common.NewOut()
 	defer out.Flush()
 	for _, l := range outs {
